@@ -276,23 +276,41 @@ func genC12LongHistory(seed uint64, r *rng, tier string) *Scenario {
 		cfg.PoolMode, cfg.MissProb, cfg.DropProb = vsim.PoolLIFO, 0, 0
 		sc.Res, pats = sc.Res[:1], pats[:1]
 		var unit string
-		for _, f := range pats[0].Frags {
-			if f == "" {
-				continue
+		for tries := 0; unit == "" && tries < 8; tries++ {
+			if tries > 0 {
+				s2, p2 := randSpec(r, true)
+				s2.HasLimit, s2.Limit = false, 0
+				if v := pristine(s2, &Op{Kind: OpGroupInfo}, scriptOpCap); len(v.res) > 8 && v.res[:8] == "COMPILE:" {
+					continue
+				}
+				sc.Res[0], pats[0] = s2, p2
 			}
-			if v := pristine(sc.Res[0], &Op{Kind: OpMatchString, In: lit(f), N: -1, TimeoutNs: -1}, scriptOpCap); v.res == "true" {
-				unit = f + " "
-				break
+			for _, f := range pats[0].Frags {
+				if f == "" {
+					continue
+				}
+				if v := pristine(sc.Res[0], &Op{Kind: OpMatchString, In: lit(f), N: -1, TimeoutNs: -1}, scriptOpCap); v.res == "true" {
+					unit = f + " "
+					break
+				}
 			}
 		}
 		if unit == "" {
 			return sc
 		}
 		rep := 800 + r.n(1500)
+		for rep > 60 {
+			// the longest input whose multi-match calls stay inside the per-call step cap
+			probe := Op{Kind: OpReplace, Re: 0, In: InputSpec{Unit: unit, Rep: rep}, N: -1, Repl: "<$0>", TimeoutNs: -1}
+			if v := pristine(sc.Res[0], &probe, scriptOpCap); !v.capped && v.steps < scriptOpCap/3 {
+				break
+			}
+			rep /= 2
+		}
 		long := InputSpec{Unit: unit, Rep: rep}
 		cl := Client{Cost: int64(200 + r.n(300))}
 		total := 0
-		for total < 66000+r.n(3000) && len(cl.Ops) < 400 {
+		for total < 66000+r.n(3000) && len(cl.Ops) < 1500 {
 			var op Op
 			switch r.n(6) {
 			case 0:
